@@ -426,6 +426,53 @@ reg(Spec(
     technique="runtime monitor: accept-iff-valid oracle over exhaustive "
               "small sequences and generated argument tuples"))
 
+# ----------------------------------------------------------------------- C12
+
+
+def c12_runs(tier, seed):
+    n = q(tier, 6000, 400000)
+    runs = [RunSpec("interp", "Q", "plain", n),
+            RunSpec("interp", "d", "plain", n)]
+    if tier == "thorough":
+        runs += [RunSpec("interp", "f", "plain", n // 2),
+                 RunSpec("interp", "ld", "plain", n // 2)]
+    return runs
+
+
+reg(Spec(
+    "C12", "interpolation reproduces data, smoothness and boundary conditions",
+    c12_runs,
+    rule=("case k -> order 1 + k mod 5; 2..10 abscissae taken as a window "
+          "(offset 0..2 on either side) of a generated grid (uniform, "
+          "geometric with ratios up to 2^10, random widths; floating: 1/16 "
+          "lattice in [-8,8]), general ordinates, default boundaries (1/3) or a "
+          "random admissible set with distinct (node, derivative 1..order) "
+          "pairs and arbitrary values. Problems whose exactly re-assembled "
+          "system is singular are counted and skipped. Exact oracle (generic "
+          "interpolate over the archetype rational with a harness-side "
+          "Gaussian elimination): the value at every abscissa from BOTH "
+          "adjacent pieces equals the ordinate, one-sided derivatives 1..order-1 "
+          "agree at every interior abscissa, every boundary row holds, result "
+          "window == given support - all exactly. Bundled solver "
+          "(interpolateUsingEigen): ||M x - b||_2 <= 2^10 n eps (||M||_F "
+          "||x||_2 + ||b||_2) for the system re-assembled by the harness in "
+          "exact arithmetic from the statement. Distinct by full input."),
+    required=["problems", "boundaries:default", "boundaries:custom",
+              "boundary:LAST", "boundary:derivative>=2",
+              "boundary:nonzero-value", "abscissae:two-points",
+              "abscissae:window-of-larger-grid", "nodes-checked",
+              "boundary-rows-checked", "residuals-checked"] +
+             ["order:%d" % i for i in range(1, 6)],
+    assumptions=[DYADIC, "uniquely solvable problems only (decided by exact "
+                 "elimination of the harness-assembled system)",
+                 "the bundled solver (rank-revealing QR) is judged only on "
+                 "problems it can solve in its arithmetic: cond_2(M) n eps 2^10 "
+                 "<= 1 (others are counted as ill-conditioned and skipped)"],
+    evaluations="problems",
+    technique="runtime monitor: exact condition-by-condition oracle (exact "
+              "solver) and backward-error oracle (bundled solver) over "
+              "generated interpolation problems"))
+
 # ------------------------------------------------- pool machine: C03/10/14/15
 PLACEMENTS = ["EQ", "A_IN_B", "B_IN_A", "PARTIAL_L", "PARTIAL_R", "TOUCH",
               "GAP", "A_EMPTY", "B_EMPTY", "BOTH_EMPTY", "A_POINT", "B_POINT"]
